@@ -14,12 +14,14 @@ type counter struct{ n int }
 func (c *counter) Inc() { c.n++ }
 
 type LruOpJ struct {
+	Regrow bool `json:"regrow,omitempty"` // Put again the SAME bitmap object last stored under the key, after adding values to it
 	Get  bool   `json:"get,omitempty"`
 	Key  uint64 `json:"key"`
 	Size int    `json:"size_class,omitempty"` // index into the bitmap size classes
 }
 
 type LruCase struct {
+	LateMetrics bool `json:"late_metrics,omitempty"` // counters set via the caller's *CacheMetrics after NewLRUCache
 	Metrics int  `json:"metrics,omitempty"` // bit mask of configured counters: 1 hit, 2 miss, 4 get, 8 put; 0 = all
 	Max uint64   `json:"max"`
 	Ops []LruOpJ `json:"ops"`
@@ -83,8 +85,17 @@ func runLruCase(o *Oracle, c *LruCase, rep *Report) {
 	if mask&8 != 0 {
 		m.PutCall = put
 	}
-	cache := updog.NewLRUCache(c.Max, updog.WithCacheMetrics(m))
+	var cache *updog.LRUCache
+	if c.LateMetrics {
+		// the counters are assigned through the caller's pointer after the cache was constructed
+		late := &updog.CacheMetrics{}
+		cache = updog.NewLRUCache(c.Max, updog.WithCacheMetrics(late))
+		*late = *m
+	} else {
+		cache = updog.NewLRUCache(c.Max, updog.WithCacheMetrics(m))
+	}
 	ovh := updog.VerifLRUOverhead()
+	lastPut := map[uint64]*roaring.Bitmap{}
 	ids := map[*roaring.Bitmap]int{}
 	byID := map[int]*roaring.Bitmap{}
 	var req strings.Builder
@@ -105,6 +116,15 @@ func runLruCase(o *Oracle, c *LruCase, rep *Report) {
 		} else {
 			bm := bitmapOfClass(op.Size)
 			id := i + 1
+			if prev, ok := lastPut[op.Key]; ok && op.Regrow {
+				// the caller keeps the object it stored, adds to it and stores it again
+				bm = prev
+				for v := uint32(0); v < 3000; v++ {
+					bm.Add(100000 + uint32(i)*4000 + v)
+				}
+				id = ids[bm]
+			}
+			lastPut[op.Key] = bm
 			ids[bm] = id
 			byID[id] = bm
 			cache.Put(op.Key, bm)
@@ -191,7 +211,7 @@ func genLruCase(r *Rng, nops int) *LruCase {
 		if r.Chance(2, 5) {
 			c.Ops = append(c.Ops, LruOpJ{Get: true, Key: k})
 		} else {
-			c.Ops = append(c.Ops, LruOpJ{Key: k, Size: r.Intn(nSizeClasses)})
+			c.Ops = append(c.Ops, LruOpJ{Key: k, Size: r.Intn(nSizeClasses), Regrow: r.Chance(1, 6)})
 		}
 	}
 	return c
@@ -245,6 +265,7 @@ func runC07(rep *Report, r *Rng, tier string) {
 		if i%3 == 0 {
 			c.Metrics = 1 + r.Intn(15)
 		}
+		c.LateMetrics = i%5 == 1
 		if i < 2 {
 			rep.Sample(c)
 		}
